@@ -28,6 +28,9 @@ namespace vrt {
 // attached to the slice event in which it happened.
 void Obs(const std::string& kind, const std::string& value = "");
 
+// Name the calling fiber (a thread created by library / pool code, e.g. a worker) as a process of the model.
+void NameSelf(const std::string& name);
+
 // Label of the public API call in progress (used in event records as "api").
 struct Api {
   explicit Api(const char* name);
